@@ -10,7 +10,9 @@ for meta in sorted(glob.glob("/verif/seeded/*/meta.json")):
     m = json.load(open(meta))
     d = os.path.dirname(meta)
     for s in seeds:
-        items.append((m["seed_id"], m["property"], os.path.join(d, "patch.diff"), s, m.get("base_commit")))
+        # patch_head.diff = the same change re-applied by hand on today's code, for patches that collide with a later fix
+        ported = os.path.join(d, "patch_head.diff")
+        items.append((m["seed_id"], m["property"], ported if os.path.exists(ported) else os.path.join(d, "patch.diff"), s, m.get("base_commit")))
 
 
 _bases = {}
